@@ -196,7 +196,7 @@ def load(cli=None, env=None, file=None, fw=None, conf_path=None, cli_conf=None, 
         try:
             app = FwApp("%(prog)s [OPTIONS] [APP_MODULE]", prog="gunicorn")
             if reload_to is not None:
-                os.chdir(d)
+                # no chdir here: like a running master, the process stays wherever the first load left it
                 apply(**reload_to)
                 app.reload()
             return "ok", snapshot(app)
@@ -423,6 +423,32 @@ def _config_task(_):
         if got != exp:
             viols.append(violation("config-file-selection", "-c on command line=%s, -c in env=%s, ./gunicorn.conf.py=%s: got %r expected %r" % (
                 use_cli, use_env, use_default, got, exp), {"cli": use_cli, "env": use_env, "default": use_default}))
+    # every spelling of the file source names the same file: absolute, relative, with the explicit file: prefix
+    for sub in ("etc", "live", "file", "conf.d"):
+        os.makedirs(os.path.join(d, sub), exist_ok=True)
+        open(os.path.join(d, sub, "c.py"), "w").write("proc_name = 'from-%s'\nworkers = 4\n" % sub)
+        for spelling in (os.path.join(d, sub, "c.py"), "file:" + os.path.join(d, sub, "c.py"), "%s/c.py" % sub, "./%s/c.py" % sub,
+                         "file:%s/c.py" % sub, "file:./%s/c.py" % sub):
+            for via in ("cli", "env"):
+                evals += 1
+                status, snap = load(cli_conf=spelling) if via == "cli" else load(env_conf=spelling)
+                if status != "ok":
+                    viols.append(violation("config-file-selection:spelling-not-loaded", "-c %s (%s): %s" % (spelling.replace(d, "<dir>"), via, snap), {"spelling": spelling.replace(d, "<dir>")}))
+                elif (snap["proc_name"], snap["workers"]) != ("from-" + sub, 4):
+                    viols.append(violation("config-file-selection:spelling-ignored", "-c %s (%s): proc_name=%r workers=%r, the file says %r and 4" % (
+                        spelling.replace(d, "<dir>"), via, snap["proc_name"], snap["workers"], "from-" + sub), {"spelling": spelling.replace(d, "<dir>")}))
+    # reload histories of the file source when the configuration moves the working directory
+    for label, first, conf_kw in (("default-file", "chdir = %r\nworkers = 3\nproc_name = 'one'\n" % os.path.join(d, "dirA"), {}),
+                                 ("relative -c", None, {"cli_conf": "etc/rel.py"}), ("relative -c in env", None, {"env_conf": "etc/rel.py"})):
+        open(os.path.join(d, "etc", "rel.py"), "w").write("chdir = %r\nworkers = 3\nproc_name = 'one'\n" % os.path.join(d, "dirA"))
+        full = {"cli": None, "env": None, "file": first, "fw": None, "cli_conf": conf_kw.get("cli_conf"), "env_conf": conf_kw.get("env_conf")}
+        evals += 1
+        st1, snap1 = load(file=first, reload_to=full, **conf_kw)
+        st2, snap2 = load(file=first, **conf_kw)
+        if st1 != st2 or (st1 == "ok" and snap1 != snap2):
+            diff = [k for k in (snap1 if isinstance(snap1, dict) else {}) if isinstance(snap2, dict) and snap1[k] != snap2.get(k)]
+            viols.append(violation("reload-differs-from-fresh-load:chdir-in-config", "%s sets chdir; reload with nothing changed: %s, fresh load: %s" % (
+                label, {k: snap1[k] for k in diff} if diff else snap1, {k: snap2[k] for k in diff} if diff else snap2), {"history": label}))
     # a syntactically broken / missing file stops startup
     for text, label in (("workers = = 3\n", "syntax-error"), (None, "missing")):
         evals += 1
